@@ -28,7 +28,8 @@ def cascades(shape, opt, reverse_required):
     return shape in ('one_to_many',) and reverse_required
 
 
-def _build(shape, opt, reverse_required):
+def _build(shape, opt, reverse_required, declared_on='root'):
+    if declared_on == 'subclass': return _build_sub(shape, opt, reverse_required)
     db = orm.Database('sqlite', ':memory:')
     kw = {} if opt is None else dict(cascade_delete=opt)
     Rev = orm.Required if reverse_required else orm.Optional
@@ -70,6 +71,36 @@ def _build(shape, opt, reverse_required):
     return types.SimpleNamespace(db=db, Parent=Parent, Dep=Dep)
 
 
+def _build_sub(shape, opt, reverse_required):
+    """the same shapes with the dependent's reference declared on a SUBCLASS (single-table inheritance makes its column nullable whatever the declaration says)"""
+    db = orm.Database('sqlite', ':memory:')
+    kw = {} if opt is None else dict(cascade_delete=opt)
+    Rev = orm.Required if reverse_required else orm.Optional
+    if shape == 'one_to_many':
+        class Parent(db.Entity):
+            name = orm.Optional(str)
+            deps = orm.Set('SubDep', **kw)
+
+        class Dep(db.Entity):
+            name = orm.Optional(str)
+
+        class SubDep(Dep):
+            parent = Rev(Parent)
+    elif shape == 'one_to_one_fk_on_dependent':
+        class Parent(db.Entity):
+            name = orm.Optional(str)
+            deps = orm.Optional('SubDep', **kw)
+
+        class Dep(db.Entity):
+            name = orm.Optional(str)
+
+        class SubDep(Dep):
+            parent = Rev(Parent, **({} if reverse_required else dict(column='parent')))
+    else: return None
+    db.generate_mapping(create_tables=True)
+    return types.SimpleNamespace(db=db, Parent=Parent, Dep=SubDep)
+
+
 def _configs(tier):
     out = []
     for shape in ('one_to_many', 'one_to_one_fk_on_dependent', 'one_to_one_fk_on_deleted', 'many_to_many'):
@@ -80,7 +111,9 @@ def _configs(tier):
                 for has_dep in (False, True):
                     for loaded in (False, True):
                         for how in ('obj.delete', 'query.delete', 'bulk'):
-                            out.append(dict(shape=shape, cascade_delete=opt, reverse_required=rr, has_dep=has_dep, loaded=loaded, how=how))
+                            out.append(dict(shape=shape, cascade_delete=opt, reverse_required=rr, has_dep=has_dep, loaded=loaded, how=how, declared_on='root'))
+                            if shape in ('one_to_many', 'one_to_one_fk_on_dependent'):
+                                out.append(dict(shape=shape, cascade_delete=opt, reverse_required=rr, has_dep=has_dep, loaded=loaded, how=how, declared_on='subclass'))
     return out
 
 
@@ -104,7 +137,7 @@ def _case(cfg, values):
     def call():
         st = cur().state
         try:
-            M = _build(cfg['shape'], cfg['cascade_delete'], cfg['reverse_required'])
+            M = _build(cfg['shape'], cfg['cascade_delete'], cfg['reverse_required'], cfg['declared_on'])
         except TypeError as e:
             st['declaration_rejected'] = str(e)
             return 'rejected'
@@ -209,12 +242,12 @@ def _spec(cfg, i, path):
 
 # ------------------------------------------------------------------ defaults and ON DELETE clauses (finite table)
 def _od_configs(tier):
-    return [dict(shape=s, cascade_delete=o, reverse_required=r) for s in ('one_to_many', 'one_to_one_fk_on_dependent') for o in (None, True, False) for r in (True, False)]
+    return [dict(shape=s, cascade_delete=o, reverse_required=r, declared_on=w) for s in ('one_to_many', 'one_to_one_fk_on_dependent') for o in (None, True, False) for r in (True, False) for w in ('root', 'subclass')]
 
 
 def _od_case(cfg, values):
     def call():
-        try: M = _build(cfg['shape'], cfg['cascade_delete'], cfg['reverse_required'])
+        try: M = _build(cfg['shape'], cfg['cascade_delete'], cfg['reverse_required'], cfg['declared_on'])
         except TypeError as e: return ('rejected', str(e))
         table = M.db.schema.tables['Dep']
         fks = list(table.foreign_keys.values())
@@ -239,7 +272,7 @@ CONTRACTS = [
     Contract('delete_decision_table', ['pony.orm.core:Entity._delete_', 'pony.orm.core:Entity.delete', 'pony.orm.core:Query.delete', 'pony.orm.core:Attribute.linked',
                                        'pony.orm.core:Database.generate_mapping', 'pony.orm.core:Entity._save_deleted_'], _configs, _case,
              [('cascade_unlink_or_refuse_and_no_dangling_reference', _spec)], level='bounded',
-             bound='4 relationship shapes x cascade option x required/optional x dependents (0 / 1-2) x loaded or not x obj.delete / Query.delete / bulk delete'),
+             bound='4 relationship shapes x cascade option x required/optional x reference declared on the root entity or on a subclass x dependents (0 / 1-2) x loaded or not x obj.delete / Query.delete / bulk delete'),
     Contract('cascade_default_and_on_delete_clause', ['pony.orm.core:Attribute.linked', 'pony.orm.core:Database.generate_mapping'], _od_configs, _od_case,
-             [('default_and_on_delete_follow_the_rule', _od_spec)], level='bounded', bound='2 shapes x 3 options x required/optional'),
+             [('default_and_on_delete_follow_the_rule', _od_spec)], level='bounded', bound='2 shapes x 3 options x required/optional x declared on the root entity / on a subclass'),
 ]
